@@ -854,6 +854,11 @@ def inline_methods_by_name(index: RepoIndex, expr: ast.AST, depth: int = 3,
             params = [a.arg for a in fn.args.posonlyargs + fn.args.args]
             if not params:
                 return c
+            # the expression is moved to another module: it must not name tables / constants /
+            # helpers private to the module that defines the method
+            free_ = {n.id for n in ast.walk(e) if isinstance(n, ast.Name)} - set(params)
+            if free_ & (set(m.module.assigns) | set(m.module.functions)):
+                return c
             bound: Dict[str, ast.AST] = {params[0]: c.func.value}
             bound.update(zip(params[1:], c.args))
             for k in c.keywords:
